@@ -126,6 +126,11 @@ def py_calls(ev: Evaluator, env: Env, n: ast.Call) -> Any:
         f.attr if isinstance(f, ast.Attribute) else None)
     if name in ("check_int_range", "check_to_int_range") and n.args:
         return ev.expr(env, n.args[0])
+    if isinstance(f, ast.Name) and f.id == "divmod" and len(
+            n.args) == 2 and not n.keywords:
+        a_, b_ = ev.num(env, n.args[0]), ev.num(env, n.args[1])
+        return (Poly.atom(("app", "floordiv", (a_, b_))),
+                Poly.atom(("app", "mod", (a_, b_))))
     if isinstance(f, ast.Name) and f.id == "len" and len(n.args) == 1:
         a = n.args[0]
         if isinstance(a, ast.Name):
